@@ -98,6 +98,31 @@ func c02Gen(g *core.Gen) {
 			}
 		}
 	}
+	// files above 16 KiB (the 16k hash no longer covers the whole file) x every subset of recovery files replaced by
+	// well-formed files carrying wrong blocks (as a volume left over from another generation of the set would be) x
+	// damage inside / beyond the first 16 KiB, up to and beyond capacity x DoubleCheck: the file hash is the last gate
+	big2Cfg := scen.P2Config{Sizes: []int{20000, 17001}, Slice: 1000, Blocks: 3, Class: "uniq", G: 2}
+	for sub := 0; sub < 1<<uint(nRecFiles(big2Cfg.Blocks)); sub++ {
+		for _, dm := range [][]scen.Dmg{
+			{{Op: "ovw", F: 0, At: 17}},
+			{{Op: "ovw", F: 0, At: 3}},
+			{{Op: "ovw", F: 0, At: 17}, {Op: "ovw", F: 1, At: 16}},
+			{{Op: "ovw", F: 0, At: 17}, {Op: "ovw", F: 0, At: 18}, {Op: "ovw", F: 1, At: 16}},
+			{{Op: "ovw", F: 0, At: 19}, {Op: "ovw", F: 0, At: 18}, {Op: "ovw", F: 1, At: 16}, {Op: "ovw", F: 0, At: 17}},
+			{{Op: "cut", F: 0, At: 17500, N: 3}},
+			{{Op: "del", F: 1}},
+		} {
+			ds := append([]scen.Dmg{}, dm...)
+			for v := 0; v < nRecFiles(big2Cfg.Blocks); v++ {
+				if sub>>uint(v)&1 == 1 {
+					ds = append(ds, scen.Dmg{Op: "badrec", F: v})
+				}
+			}
+			for _, dc := range []bool{false, true} {
+				g.Emit(&c02Case{Kind: "p2", P2: &p2Case{Cfg: big2Cfg, Dmg: ds, G: 2, DoubleCheck: dc, Extra: c02Extras}})
+			}
+		}
+	}
 	// Repair that fails midway: the k-th write fails (no effect); everything written before must still be
 	// exact and listed ("whether Repair succeeds or fails")
 	for ci, cfg := range cfgs {
